@@ -183,7 +183,7 @@ pub fn check(prop: &str, tier: &str) -> i32 {
                 .args(["+nightly", "miri", "run", "--offline", "-q", "--"])
                 .args(["shard", prop, miri_tier, &seed.to_string(), &(1000 + i).to_string(), &format!("{m_budget}"), &m_iters.to_string()])
                 .arg(&out)
-                .env("MIRIFLAGS", "-Zmiri-tree-borrows -Zmiri-permissive-provenance -Zmiri-disable-isolation")
+                .env("MIRIFLAGS", "-Zmiri-tree-borrows -Zmiri-permissive-provenance -Zmiri-disable-isolation -Zmiri-ignore-leaks")
                 .env("CARGO_NET_OFFLINE", "true")
                 .stdout(Stdio::null());
             match log {
